@@ -20,7 +20,7 @@ RULE = ("MazeDatasetCollection built from member datasets with prescribed length
 ASSUMPTIONS = ["member configs carry n_mazes == len(member) (what generation and update_self_config produce)"]
 EXHAUSTIVE = {"quick": False, "thorough": False}
 NSHARDS = {"quick": 16, "thorough": 16}
-THRESHOLDS = {"quick": {"c16:collections": 800, "c16:index-checks": 3000, "c16:vec-exhaustive": 363, "c16:zero-first": 50,
+THRESHOLDS = {"quick": {"c16:collections": 800, "c16:library-made": 120, "c16:library-made:member-configs-with-filters": 50, "c16:index-checks": 3000, "c16:vec-exhaustive": 363, "c16:zero-first": 50,
                         "c16:zero-middle": 50, "c16:zero-last": 50, "c16:repeated-zeros": 50, "c16:mixed-grid": 100,
                         "c16:np-int-index": 300, "c16:long-members": 30, "c16:caller-list-mutated": 500, "c16:rebalanced-in-place": 300, "c16:config-object-reused": 500, "c16:many-members": 6, "c16:shared-member-names": 60, "c16:index-checks-second-pass": 2000}}
 THRESHOLDS["thorough"] = dict(THRESHOLDS["quick"])
@@ -160,7 +160,51 @@ def check_vector(ctx, lengths, grids, rng, tag):
         ctx.tally("c16:mixed-grid")
 
 
+def _library_made(ctx, n):
+    """collections the library itself puts together (generate / config-driven entry point), member configurations with and without
+    recorded filters that would really remove mazes: whatever the members end up holding, every view of the collection agrees"""
+    from maze_dataset import MazeDatasetConfig
+    from maze_dataset.dataset.collected_dataset import MazeDatasetCollection, MazeDatasetCollectionConfig
+    from maze_dataset.generation.generators import GENERATORS_MAP
+
+    FILTERS = [[], [], [dict(name="path_length", args=(), kwargs=dict(min_length=4))], [dict(name="truncate_count", args=(2,), kwargs={})],
+               [dict(name="start_end_distance", args=(), kwargs=dict(min_distance=3)), dict(name="truncate_count", args=(), kwargs=dict(max_count=3))]]
+    for j in range(n):
+        if not ctx.mine(j):
+            continue
+        rng = ctx.sub_rng("libmade", j)
+        k = int(rng.integers(1, 5))
+        members = []
+        for t in range(k):
+            gen = ["gen_dfs", "gen_dfs_percolation", "gen_prim"][int(rng.integers(3))]
+            members.append(MazeDatasetConfig(name=f"lm{t}", grid_n=int(rng.integers(3, 6)), n_mazes=int(rng.integers(1, 9)), maze_ctor=GENERATORS_MAP[gen],
+                                             maze_ctor_kwargs=dict(p=0.3) if gen == "gen_dfs_percolation" else {}, seed=int(rng.integers(1 << 20)),
+                                             applied_filters=[dict(f) for f in FILTERS[int(rng.integers(len(FILTERS)))]]))
+        how = ["generate", "from_config"][j % 2]
+        case = dict(kind="library-made", how=how, members=[dict(grid_n=m.grid_n, n_mazes=m.n_mazes, filters=[f["name"] for f in m.applied_filters]) for m in members])
+        with ctx.guard("C16/library-made", case):
+            with warnings.catch_warnings():
+                warnings.simplefilter("ignore")
+                ccfg = MazeDatasetCollectionConfig(name=f"libmade{j}", maze_dataset_configs=members)
+                col = MazeDatasetCollection.generate(ccfg) if how == "generate" else \
+                    MazeDatasetCollection.from_config(ccfg, load_local=False, save_local=False, do_download=False)
+            ctx.ev(); ctx.tally("c16:library-made"); ctx.tally(f"c16:library-made:{how}")
+            if any(m.applied_filters for m in members):
+                ctx.tally("c16:library-made:member-configs-with-filters")
+            concat = [m for d in col.maze_datasets for m in d.mazes]
+            lens = [len(d) for d in col.maze_datasets]
+            total = len(concat)
+            ok = (len(col) == total and len(col.mazes) == total and list(int(x) for x in col.dataset_lengths) == lens and int(col.cfg.n_mazes) == total)
+            ctx.check(ok, "C16/library-made-views-disagree",
+                      lambda: f"{how}: members hold {lens} (sum {total}); len()={len(col)}, len(.mazes)={len(col.mazes)}, dataset_lengths={list(col.dataset_lengths)}, cfg.n_mazes={col.cfg.n_mazes}", case)
+            ctx.check(all(col[i] is concat[i] for i in range(min(total, len(col)))), "C16/item-not-the-member-maze", f"{how}", case)
+            # the member configurations the collection reports describe the members it holds
+            rep = [int(c.n_mazes) for c in col.cfg.maze_dataset_configs]
+            ctx.check(rep == lens, "C16/library-made-member-config-count-wrong", lambda: f"{how}: cfg.maze_dataset_configs report {rep}, members hold {lens}", case)
+
+
 def run(ctx):
+    _library_made(ctx, 160 if ctx.quick else 1600)
     k = 0
     for klen in range(1, 6):
         for vec in itertools.product((0, 1, 2), repeat=klen):
